@@ -96,7 +96,24 @@ def witness(m, variant, valid, payload):
     v = m.eval(payload, model_completion=True)
     if variant == 'String':
         sid = v.as_long()
-        return {'cell': {0: '', 1: 'NULL'}.get(sid, 'str%d' % sid)}
+        if sid in (0, 1):
+            return {'cell': {0: '', 1: 'NULL'}[sid]}
+        from .natives import STR_TRIM, STR_EQIC
+        from z3 import IntVal
+        t = m.eval(STR_TRIM(IntVal(sid)), model_completion=False)
+        try:
+            t = t.as_long()
+        except AttributeError:
+            t = None
+        if t == 0:
+            return {'cell': ' '}                     # a string that trims to the empty string
+        if t == 1:
+            return {'cell': ' NULL '}                # a string that trims to the text NULL
+        if is_true(m.eval(STR_EQIC(IntVal(sid), IntVal(1)), model_completion=False)):
+            return {'cell': 'null'}                  # a string equal to NULL up to case
+        if t is not None and t != sid:
+            return {'cell': ' str%d ' % t}           # a string with surrounding blanks
+        return {'cell': 'str%d' % sid}
     if variant == 'Bool':
         return {'cell': bool(is_true(v))}
     x = v.as_long()
@@ -134,7 +151,7 @@ def option_probes(rep, thorough):
     delims = [',', '|', ';', '\t'] if thorough else [',', '|']
     quotes = ['"', "'"]
     headers = [False, True]
-    cells = ["plain", "a,b", "a|b", 'say "hi"', "it's", "two\nlines", " padded ", "NULL", "x;y", "tab\there"]
+    cells = ["plain", "a,b", "a|b", 'say "hi"', "it's", "two\nlines", " padded ", "NULL", "x;y", "tab\there", " ", "   ", "null", " NULL "]
     n = ok = 0
     seen = set()
     for d, q, h in itertools.product(delims, quotes, headers):
